@@ -92,7 +92,13 @@ class Check:
         return ov
 
     def load(self, entries):
-        self.prog = wprog.load_program(self.packages, entries, self.overlays(), bodies=self.bodies, workdir=self.workdir)
+        try:
+            self.prog = wprog.load_program(self.packages, entries, self.overlays(), bodies=self.bodies, workdir=self.workdir)
+        except wprog.FrontEndError as ex:
+            # the harness no longer compiles against the tree (or the tree itself does not compile): never a pass
+            print('INCONCLUSIVE property=%s front end failed: %s' % (self.pid, str(ex)[-1500:].replace('\n', ' | ')))
+            self.cleanup()
+            sys.exit(2)
         return self.prog
 
     def new_interp(self, cfg=None, installers=()):
